@@ -12,10 +12,10 @@ import scipy.sparse as sps
 from pmc import modspecs as ms
 
 PROPERTY = 'C03'
-RULE = ("stateless exploration of call histories on 13 networks (N1 filter+stiffness+sparse LinSolve, N2 block rhs, N3 "
+RULE = ("stateless exploration of call histories on 14 networks (N1 filter+stiffness+sparse LinSolve, N2 block rhs, N3 "
         "CG(SOR) with initial-guess memory, N4 sparse EigenSolve, N5 OverhangFilter+KS, N6 SystemOfEquations, N7 "
         "StaticCondensation, N8 complex dynamic stiffness + LinSolve + ComplexNorm, N9 bare dense LinSolve whose matrix "
-        "table holds different matrix classes, N10 the same with definite -> indefinite -> definite symmetric matrices, N11 CG with geometric multigrid, N12 sparse eigenvectors seeded one mode at a time, N13 block right-hand side whose seeds mix seen and new columns); every protocol-respecting sequence over {I0,I1,I2,R,S0,S1,B,Z} up to the "
+        "table holds different matrix classes, N10 the same with definite -> indefinite -> definite symmetric matrices, N11 CG with geometric multigrid, N12 sparse eigenvectors seeded one mode at a time, N13 block right-hand side whose seeds mix seen and new columns, N14 CG on a block of load cases of which one changes); every protocol-respecting sequence over {I0,I1,I2,R,S0,S1,B,Z} up to the "
         "depth bound, each followed by clean cycles for all (k,j), j in {output 0, output 1, both outputs} (the first fresh after the sequence, rotating); on every "
         "intermediate state: after Z no sensitivity is left, B without a seed changes nothing, R,R equals R. Level 'reseeded-passes': "
         "every clean cycle followed by every cycle (k,j,j2[,j3]) = clean cycle (k,j) then reset+seed j2+sensitivity WITHOUT a new response, "
@@ -26,7 +26,7 @@ ASSUMPTIONS = ["documented memories (Scaling first value, damped AggScaling, wri
                "pymoto.core_objects.get_init_str (diagnostic only) replaced by a constant"]
 
 OPS = ['I0', 'I1', 'I2', 'R', 'S0', 'S1', 'B', 'Z']
-NETS = ['N1', 'N2', 'N3', 'N4', 'N5', 'N6', 'N7', 'N8', 'N9', 'N10', 'N11', 'N12', 'N13']
+NETS = ['N1', 'N2', 'N3', 'N4', 'N5', 'N6', 'N7', 'N8', 'N9', 'N10', 'N11', 'N12', 'N13', 'N14']
 
 
 def _xs(nel, t):
@@ -92,6 +92,27 @@ def build(name, t=0):
         new1[bc] = 0
         new2[bc] = 0
         seeds = [np.stack([F[:, 0], new1], axis=1), np.stack([new2, F[:, 1]], axis=1)]
+    elif name == 'N14':
+        # CG (warm-started from its previous solution) with a block of load cases of which only ONE changes between the
+        # tables; the matrix and the other load case stay the same
+        nd = dom.nnodes * 2
+        Ks = pym.Signal('K')
+        pym.AssembleStiffness(pym.Signal('xk', xs[0].copy()), Ks, domain=dom, bc=bc).response()
+        base = np.cos(0.9 + 1.3 * np.arange(nd))
+        base[bc] = 0
+        Fs = []
+        for k_ in range(3):
+            col = np.sin(0.2 + (0.6 + 0.5 * k_) * np.arange(nd)) * (1.0 + k_)
+            col[bc] = 0
+            Fs.append(np.stack([base, col], axis=1))
+        rhs = pym.Signal('f', Fs[0].copy())
+        net = pym.Network()
+        u = net.append(pym.LinSolve([Ks, rhs], solver=ps.CG(preconditioner=ps.SOR(), tol=1e-11)))
+        c = net.append(pym.EinSum([u, rhs], expression='ij,ij->'))
+        v = net.append(pym.EinSum([u, u], expression='ij,ij->'))
+        sources, tables = [rhs], [[F_] for F_ in Fs]
+        outs = [c, v]
+        x = rhs
     elif name == 'N5':
         xo = net.append(pym.OverhangFilter(x, domain=dom, direction=[0, 1]))
         a = net.append(pym.KSFunction(xo, rho=3.0))
@@ -289,7 +310,7 @@ def class_change(name, seq, cycles):
 
 def run_history(name, t, seq, cycles):
     """returns (ops, violation tuple or None)"""
-    tol = 1e-6 if name in ('N3', 'N11') else 1e-9
+    tol = 1e-6 if name in ('N3', 'N11', 'N14') else 1e-9
     w = build(name, t)
     net = w['net']
     seeded = False
@@ -351,7 +372,7 @@ def run_history(name, t, seq, cycles):
                     return nops, ('state_differs_from_fresh', {'net': name, 'input_class_changed': changed},
                                   {'seq': seq, 'cycles': cycles[:c + 1], 'signal': w['sigs'][idx].tag, 'rel': d})
             for idx, (a, b) in enumerate(zip(gs, rgs)):
-                ok, d = close(a, b, tol * (1e3 if name in ('N3', 'N11') else 1))
+                ok, d = close(a, b, tol * (1e3 if name in ('N3', 'N11', 'N14') else 1))
                 if not ok:
                     return nops, ('sensitivity_differs_from_fresh', {'net': name, 'input_class_changed': changed},
                                   {'seq': seq, 'cycles': cycles[:c + 1], 'source': idx, 'rel': d})
@@ -371,7 +392,7 @@ def run_history(name, t, seq, cycles):
                         return nops, ('state_changed_by_sensitivity_pass', {'net': name},
                                       {'seq': seq, 'cycles': cycles[:c + 1], 'signal': w['sigs'][idx].tag, 'rel': d})
                 for idx, (a, b) in enumerate(zip(src_sens(w), ref2[1])):
-                    ok, d = close(a, b, tol * (1e3 if name in ('N3', 'N11') else 1))
+                    ok, d = close(a, b, tol * (1e3 if name in ('N3', 'N11', 'N14') else 1))
                     if not ok:
                         return nops, ('reseeded_pass_differs_from_fresh', {'net': name, 'input_class_changed': changed},
                                       {'seq': seq, 'cycles': cycles[:c + 1], 'pass': q + 2, 'source': idx, 'rel': d})
